@@ -143,7 +143,7 @@ def parseDump (s : String) : Option BSet :=
     let b := parts.flatten
     if FormatSpec.strictlyIncreasing b && b.all (· ≤ U64) then some b else none
 
-def entry64 (e : String) : Bool := e == "readfrom" || e == "readfrom1" || e == "fromunsafe" || e == "unmarshal" || e == "base64"
+def entry64 (e : String) : Bool := e == "readfrom" || e == "readfrom1" || e == "readpipe" || e == "fromunsafe" || e == "unmarshal" || e == "base64"
 
 -- ---------------------------------------------------------------------------------------- the command family
 
@@ -368,7 +368,7 @@ def step64 (st : St) (cmd : List String) (got : String) : Option (St × Verdict)
         let l := toks.getD 2 "L"
         let l := if (l.toNat?).isSome then l else "L"
         let nExp := if entry == "unmarshal" then "-" else l
-        let cExp := if entry == "readfrom" || entry == "readfrom1" then l else "-"
+        let cExp := if entry == "readfrom" || entry == "readfrom1" || entry == "readpipe" then l else "-"
         some ({ st with bm64 := st.bm64.insert y s },
           expect (digest s ++ " " ++ nExp ++ " " ++ l ++ " " ++ cExp ++ " ok") got)
     | none => some (skip64 st got)
